@@ -702,6 +702,23 @@ class ZBackend(object):
     abs = Abs
 
 
+_NP_BACKEND = ZBackend()
+
+
+def _np_method(name):
+    def m(s):
+        return getattr(_NP_BACKEND, name)(s)
+
+    m.__name__ = name
+    return m
+
+
+# numpy's object-dtype ufunc loops call a METHOD of the same name on every element (np.exp(a) -> a[i].exp()): these make
+# np.exp / np.log / np.sqrt / np.tanh / np.arctanh on object arrays of SymNum produce the same uninterpreted applications as ZBackend
+for _n in ("exp", "log", "sqrt", "tanh", "arctanh", "log10"):
+    setattr(SymNum, _n, _np_method(_n))
+
+
 # ---------------------------------------------------------------------------
 def model_value(m, t):
     """concrete python value (int / Fraction / bool) of term t in model m (model completion on)"""
